@@ -55,6 +55,25 @@ def gen(seed):
         c = rng.randrange(1 << 32)
         devs['A']['log_crc'] = c
         devs['A']['param_crc'] = c
+    elif rng.random() < 0.3:
+        # checksums with leading zero digits, and two firmwares (same table sizes) whose checksums differ only in the
+        # leading digits: the 8-digit file name of one ends with the short form of the other
+        import copy
+        devs['B'] = copy.deepcopy(devs['A'])
+        for t in ('log', 'param'):
+            for e in devs['B'][t]:
+                e[1] = (e[1] + 'x')[:max(1, len(e[1]))] if len(e[1]) > 1 else e[1] + 'y'
+            names = [(e[0], e[1]) for e in devs['B'][t]]
+            if len(set(names)) != len(names):
+                for i, e in enumerate(devs['B'][t]):
+                    e[1] = 'n%d' % i
+        zeros = rng.choice([1, 2, 4, 7])
+        for t in ('log_crc', 'param_crc'):
+            low = rng.randrange(1, 1 << (4 * (8 - zeros)))
+            devs['B'][t] = low
+            devs['A'][t] = low | (rng.randrange(1, 16) << (4 * (8 - zeros))) if zeros < 8 else low
+        if devs['A']['log_crc'] == devs['A']['param_crc']:
+            devs['A']['param_crc'] ^= 0x10000000
     nlives = rng.choice([2, 2, 3, 4])
     lives = []
     for li in range(nlives):
@@ -67,8 +86,15 @@ def gen(seed):
                                        rng.choice(['', '', 'zeros', 'garbage'])] for _ in range(2)]}
         lives.append(life)
     lives[-1]['dev'] = 'A'
-    return {'seed': seed, 'scenario': 'cache-collide' if collide else 'cache-lives', 'knobs': knobs, 'devices': devs,
-            'ops': lives}
+    scen = 'cache-collide' if collide else 'cache-lives'
+    if devs['B'].get('log_crc') is not None and not collide:
+        scen = 'cache-short-checksum'
+        lives[0]['dev'] = 'A'
+        lives[0]['dirs'] = rng.choice(['rw', 'seed-ro'])
+        lives[0]['crash'] = None
+        lives[-1]['dev'] = 'B'
+        lives[-1]['dirs'] = rng.choice(['rw', 'ro+rw']) if lives[0]['dirs'] == 'rw' else rng.choice(['ro', 'ro+rw'])
+    return {'seed': seed, 'scenario': scen, 'knobs': knobs, 'devices': devs, 'ops': lives}
 
 
 def directed(tier):
@@ -190,7 +216,7 @@ def run_life(ctx, sim, fs, plan, li, life, complete, Crazyflie):
             P.sim_sleep(0.2)
 
     verdict = sim.run(scenario)
-    if verdict[0] in ('deadlock', 'timeout'):
+    if verdict[0] in ('deadlock', 'timeout', 'livelock'):
         from simkit.harness import hang_signature
         sg, msg = hang_signature(verdict)
         ctx.violation('1', sg, msg, verdict[1])
